@@ -279,6 +279,13 @@ def gen_consts():
     m = re.search(r"let page_size = (\d+);", s)
     if not m: problems.append("page_size not found")
     out += f"def pageSize : Nat := {m.group(1) if m else 4096}\n"
+    num = src("sonic-number/src/lib.rs")
+    m = re.search(r"while exponent < ([0-9_]+) && is_digit!\(data, \*index\)", num)
+    if not m: problems.append("parse_exponent accumulation bound not found")
+    out += f"/-- `parse_exponent` keeps accumulating while `exponent <` this bound -/\ndef expAccBound : Nat := {int(m.group(1).replace('_','')) if m else 1000}\n"
+    m = re.search(r"const FLOATING_LONGEST_DIGITS: usize = (\d+);", num)
+    if not m: problems.append("FLOATING_LONGEST_DIGITS not found")
+    out += f"def floatingLongestDigits : Nat := {m.group(1) if m else 17}\n"
     # Meta constants of node.rs
     mm = re.search(r"impl Meta \{(.*?)\n\}", node, flags=re.S)
     meta = {}
